@@ -1,5 +1,196 @@
+import BlockCiphers.Proofs.DesSpec
+import BlockCiphers.Proofs.DesCompl
+import BlockCiphers.Proofs.DesSpecPerm
+import BlockCiphers.Proofs.DesSpecSbox
+import BlockCiphers.Proofs.DesPermute
 /-
-C05 — theorem file (property theorems only).  Filled in as the models it needs are merged; see DESIGN §7 C05.
+C05 — DES and Triple-DES conform to FIPS 46-3 / SP 800-67 and their key relations
+GENERATED statement file (tools/gen_thm.py): every theorem below restates, verbatim, a theorem of a Proofs/ module
+and is proved by applying it.  ONLY property theorems and non-vacuity examples live in Thm/.
 -/
-namespace BC.Thm.C05
-end BC.Thm.C05
+
+namespace BC.Des
+open BC.Spec.Des (permute PC1 PC2 E P IP FP LR iteration schedule roundKeys cipher)
+/-- C05: `Des::new(key).encrypt_block(b)` = FIPS 46-3 DES encryption, for every key and block -/
+theorem C05.desEnc_eq_spec (key b : BitVec 64) : desEnc key b = BC.Spec.Des.des key b :=
+  _root_.BC.Des.desEnc_eq_spec key b
+end BC.Des
+
+namespace BC.Des
+open BC.Spec.Des (permute PC1 PC2 E P IP FP LR iteration schedule roundKeys cipher)
+/-- C05: `Des::new(key).decrypt_block(b)` = FIPS 46-3 DES decryption, for every key and block -/
+theorem C05.desDec_eq_spec (key b : BitVec 64) : desDec key b = BC.Spec.Des.desInv key b :=
+  _root_.BC.Des.desDec_eq_spec key b
+end BC.Des
+
+namespace BC.Des
+open BC.Spec.Des (permute PC1 PC2 E P IP FP LR iteration schedule roundKeys cipher)
+theorem C05.ede3Enc_eq_spec (key : BitVec 192) (b : BitVec 64) :
+    ede3Enc (Tdes3.new key) b = BC.Spec.Des.tdeaEnc (k1of3 key) (k2of3 key) (k3of3 key) b :=
+  _root_.BC.Des.ede3Enc_eq_spec key b
+end BC.Des
+
+namespace BC.Des
+open BC.Spec.Des (permute PC1 PC2 E P IP FP LR iteration schedule roundKeys cipher)
+theorem C05.ede3Dec_eq_spec (key : BitVec 192) (b : BitVec 64) :
+    ede3Dec (Tdes3.new key) b = BC.Spec.Des.tdeaDec (k1of3 key) (k2of3 key) (k3of3 key) b :=
+  _root_.BC.Des.ede3Dec_eq_spec key b
+end BC.Des
+
+namespace BC.Des
+open BC.Spec.Des (permute PC1 PC2 E P IP FP LR iteration schedule roundKeys cipher)
+theorem C05.eee3Enc_eq_spec (key : BitVec 192) (b : BitVec 64) :
+    eee3Enc (Tdes3.new key) b = BC.Spec.Des.eeeEnc (k1of3 key) (k2of3 key) (k3of3 key) b :=
+  _root_.BC.Des.eee3Enc_eq_spec key b
+end BC.Des
+
+namespace BC.Des
+open BC.Spec.Des (permute PC1 PC2 E P IP FP LR iteration schedule roundKeys cipher)
+theorem C05.eee3Dec_eq_spec (key : BitVec 192) (b : BitVec 64) :
+    eee3Dec (Tdes3.new key) b = BC.Spec.Des.eeeDec (k1of3 key) (k2of3 key) (k3of3 key) b :=
+  _root_.BC.Des.eee3Dec_eq_spec key b
+end BC.Des
+
+namespace BC.Des
+open BC.Spec.Des (permute PC1 PC2 E P IP FP LR iteration schedule roundKeys cipher)
+/-- two-key forms: keying option 2, `K3 = K1` -/
+theorem C05.ede2Enc_eq_spec (key : BitVec 128) (b : BitVec 64) :
+    ede2Enc (Tdes2.new key) b = BC.Spec.Des.tdeaEnc (k1of2 key) (k2of2 key) (k1of2 key) b :=
+  _root_.BC.Des.ede2Enc_eq_spec key b
+end BC.Des
+
+namespace BC.Des
+open BC.Spec.Des (permute PC1 PC2 E P IP FP LR iteration schedule roundKeys cipher)
+theorem C05.ede2Dec_eq_spec (key : BitVec 128) (b : BitVec 64) :
+    ede2Dec (Tdes2.new key) b = BC.Spec.Des.tdeaDec (k1of2 key) (k2of2 key) (k1of2 key) b :=
+  _root_.BC.Des.ede2Dec_eq_spec key b
+end BC.Des
+
+namespace BC.Des
+open BC.Spec.Des (permute PC1 PC2 E P IP FP LR iteration schedule roundKeys cipher)
+theorem C05.eee2Enc_eq_spec (key : BitVec 128) (b : BitVec 64) :
+    eee2Enc (Tdes2.new key) b = BC.Spec.Des.eeeEnc (k1of2 key) (k2of2 key) (k1of2 key) b :=
+  _root_.BC.Des.eee2Enc_eq_spec key b
+end BC.Des
+
+namespace BC.Des
+open BC.Spec.Des (permute PC1 PC2 E P IP FP LR iteration schedule roundKeys cipher)
+theorem C05.eee2Dec_eq_spec (key : BitVec 128) (b : BitVec 64) :
+    eee2Dec (Tdes2.new key) b = BC.Spec.Des.eeeDec (k1of2 key) (k2of2 key) (k1of2 key) b :=
+  _root_.BC.Des.eee2Dec_eq_spec key b
+end BC.Des
+
+namespace BC.Des
+open BC.Spec.Des (permute PC1 PC2 E P IP FP LR iteration schedule roundKeys cipher)
+theorem C05.genKeys_parity (k : BitVec 64) : genKeys k = genKeys (k ||| 0x0101010101010101#64) :=
+  _root_.BC.Des.genKeys_parity k
+end BC.Des
+
+namespace BC.Des
+open BC.Spec.Des (permute PC1 PC2 E P IP FP LR iteration schedule roundKeys cipher)
+/-- EDE with all three parts equal is single DES (the backward-compatibility property of SP 800-67 §3.2) -/
+theorem C05.ede3_equal_parts (k b : BitVec 64) :
+    ede3Enc (Tdes3.new (k ++ k ++ k)) b = desEnc k b :=
+  _root_.BC.Des.ede3_equal_parts k b
+end BC.Des
+
+namespace BC.Des
+open BC.Spec.Des (permute PC1 PC2 E P IP FP LR iteration schedule roundKeys cipher)
+theorem C05.ede2_equal_parts (k b : BitVec 64) :
+    ede2Enc (Tdes2.new (k ++ k)) b = desEnc k b :=
+  _root_.BC.Des.ede2_equal_parts k b
+end BC.Des
+
+namespace BC.Des
+open BC.Spec.Des (permute PC1 PC2 E P IP FP LR iteration schedule roundKeys cipher)
+/-- the two-key form is the three-key form with the first part repeated as third part -/
+theorem C05.ede2_eq_ede3 (k1 k2 b : BitVec 64) :
+    ede2Enc (Tdes2.new (k1 ++ k2)) b = ede3Enc (Tdes3.new (k1 ++ k2 ++ k1)) b :=
+  _root_.BC.Des.ede2_eq_ede3 k1 k2 b
+end BC.Des
+
+namespace BC.Des
+open BC.Spec.Des (permute PC1 PC2 E P IP FP LR iteration schedule roundKeys cipher)
+theorem C05.ede2Dec_eq_ede3Dec (k1 k2 b : BitVec 64) :
+    ede2Dec (Tdes2.new (k1 ++ k2)) b = ede3Dec (Tdes3.new (k1 ++ k2 ++ k1)) b :=
+  _root_.BC.Des.ede2Dec_eq_ede3Dec k1 k2 b
+end BC.Des
+
+namespace BC.Des
+open BC.Spec.Des (permute PC1 PC2 E P IP FP LR iteration schedule roundKeys cipher)
+theorem C05.eee2_eq_eee3 (k1 k2 b : BitVec 64) :
+    eee2Enc (Tdes2.new (k1 ++ k2)) b = eee3Enc (Tdes3.new (k1 ++ k2 ++ k1)) b :=
+  _root_.BC.Des.eee2_eq_eee3 k1 k2 b
+end BC.Des
+
+namespace BC.Des
+/-- complementation property of the Rust model: `Des(¬k).encrypt(¬b) = ¬Des(k).encrypt(b)` -/
+theorem C05.desEnc_complement (k b : BitVec 64) : desEnc (~~~k) (~~~b) = ~~~desEnc k b :=
+  _root_.BC.Des.desEnc_complement k b
+end BC.Des
+
+namespace BC.Des
+theorem C05.desDec_complement (k b : BitVec 64) : desDec (~~~k) (~~~b) = ~~~desDec k b :=
+  _root_.BC.Des.desDec_complement k b
+end BC.Des
+
+namespace BC.Des
+open BC.Spec.Des (permute bit IP FP E P PC1 PC2)
+theorem C05.ip_eq_table (x : BitVec 64) : ip x = permute IP 64 x :=
+  _root_.BC.Des.ip_eq_table x
+end BC.Des
+
+namespace BC.Des
+open BC.Spec.Des (permute bit IP FP E P PC1 PC2)
+theorem C05.fp_eq_table (x : BitVec 64) : fp x = permute FP 64 x :=
+  _root_.BC.Des.fp_eq_table x
+end BC.Des
+
+namespace BC.Des
+open BC.Spec.Des (permute bit IP FP E P PC1 PC2)
+/-- `e` reads R from the top 32 bits and returns E(R) in the top 48 bits (no hypothesis needed) -/
+theorem C05.e_eq_table (x : BitVec 64) :
+    e x = (permute E 48 (x.extractLsb' 32 32)).setWidth 64 <<< 16 :=
+  _root_.BC.Des.e_eq_table x
+end BC.Des
+
+namespace BC.Des
+open BC.Spec.Des (permute bit IP FP E P PC1 PC2)
+/-- `p`: reads the S-box output from the top 32 bits, returns P(.) in the top 32 bits.
+Holds for every u64 (the low 32 bits are never read), so no range hypothesis is needed. -/
+theorem C05.p_eq_table (x : BitVec 64) :
+    p x = (permute P 32 (x.extractLsb' 32 32)).setWidth 64 <<< 32 :=
+  _root_.BC.Des.p_eq_table x
+end BC.Des
+
+namespace BC.Des
+open BC.Spec.Des (permute bit IP FP E P PC1 PC2)
+/-- `pc1`: PC-1 of the key in the top 56 bits -/
+theorem C05.pc1_eq_table (k : BitVec 64) :
+    pc1 k = (permute PC1 56 k).setWidth 64 <<< 8 :=
+  _root_.BC.Des.pc1_eq_table k
+end BC.Des
+
+namespace BC.Des
+open BC.Spec.Des (permute bit IP FP E P PC1 PC2)
+/-- `pc2`: reads C‖D from the top 56 bits, returns PC-2(C‖D) in the top 48 bits.
+Holds for every u64 (the low 8 bits are never read), so no range hypothesis is needed. -/
+theorem C05.pc2_eq_table (x : BitVec 64) :
+    pc2 x = (permute PC2 48 (x.extractLsb' 8 56)).setWidth 64 <<< 16 :=
+  _root_.BC.Des.pc2_eq_table x
+end BC.Des
+
+namespace BC.Des
+open BC.Spec.Des (S sboxes)
+/-- all 8 × 64 entries: `SBOXES[i][v] = S_{i+1}(v)` -/
+theorem C05.sboxAt_eq_S : ∀ i : Fin 8, ∀ v : BitVec 6,
+    sboxAt i.val (v.setWidth 64) = (S i.val v).setWidth 64 :=
+  _root_.BC.Des.sboxAt_eq_S
+end BC.Des
+
+namespace BC.Spec.Des
+/-- the textbook reading of a permutation / selection table -/
+theorem C05.permute_getMsbD {w : Nat} (table : List Nat) (x : BitVec w) (j : Nat) (hj : j < table.length) :
+    (permute table table.length x).getMsbD j = bit x (table.getD j 0) :=
+  _root_.BC.Spec.Des.permute_getMsbD table x j hj
+end BC.Spec.Des
